@@ -35,15 +35,54 @@ for f in sorted(os.listdir(root)):
         c=s.count(a); n+=c; s=s.replace(a,b)
     # grouped imports: use std::{sync::Arc, ...}
     grouped=len(re.findall(r'use\s+std::\{[^}]*\b(sync|thread)::',s))
-    # statics holding a loom primitive cannot be const-initialised: turn them into loom::lazy_static (reset per execution)
-    stat=re.compile(r'^([ \t]*)((?:pub(?:\([^)]*\))?\s+)?)static\s+(\w+)\s*:\s*([^=;]*?(?:Mutex|RwLock|Condvar|Atomic\w+)[^=;]*?)\s*=\s*(.+?);[ \t]*$', re.M|re.S)
+    # Items holding a loom primitive cannot be const-initialised (loom's Atomic*/Mutex/RwLock::new are not const fn):
+    #  1. `const NAME: T = EXPR;` whose EXPR constructs a primitive is removed and every array-repeat use `[NAME; N]` becomes
+    #     `std::array::from_fn::<_, { N }, _>(|_| EXPR)`;
+    #  2. `static NAME: T = EXPR;` whose type names a primitive or whose EXPR (after step 1) constructs one becomes
+    #     `loom::lazy_static! { static ref NAME: T = EXPR; }` (loom resets it for every execution: each explored
+    #     interleaving is a cold start, which is exactly what a racy lazy initialisation needs).
+    PRIM = r'(?:Atomic\w+|Mutex|RwLock|Condvar)'
     ns=0
-    def repl(m):
-        global ns
-        ns+=1
-        return '%sloom::lazy_static! { %sstatic ref %s: %s = %s; }' % (m.group(1),m.group(2),m.group(3),m.group(4),m.group(5))
+    def items(kind, text):
+        """yields (start, end, indent, vis, name, type, expr) of `<vis> kind NAME: TYPE = EXPR;` items (top level of a line)"""
+        for m in re.finditer(r'^([ \t]*)((?:pub(?:\([^)]*\))?\s+)?)' + kind + r'\s+(\w+)\s*:\s*', text, re.M):
+            i = m.end(); depth = 0; eq = None
+            while i < len(text):
+                ch = text[i]
+                if ch in '([{<': depth += 1
+                elif ch in ')]}>': depth -= 1
+                elif ch == '=' and depth == 0 and text[i+1] != '=': eq = i; break
+                elif ch == ';' and depth == 0: break
+                i += 1
+            if eq is None: continue
+            j = eq + 1; depth = 0
+            while j < len(text):
+                ch = text[j]
+                if ch in '([{': depth += 1
+                elif ch in ')]}': depth -= 1
+                elif ch == ';' and depth == 0: break
+                j += 1
+            yield (m.start(), j + 1, m.group(1), m.group(2), m.group(3), text[m.end():eq].strip(), text[eq+1:j].strip())
     if n:
-        s=stat.sub(repl,s)
+        # step 1
+        changed = True
+        while changed:
+            changed = False
+            for (st, en, ind, vis, name, typ, expr) in items('const', s):
+                if re.search(PRIM + r'::new\s*\(', expr) or re.search(r'\b' + PRIM + r'\b', typ):
+                    s = s[:st] + '// (const %s inlined for the loom build)' % name + s[en:]
+                    s = re.sub(r'\[\s*' + re.escape(name) + r'\s*;\s*([^\]]+?)\s*\]', lambda m: 'std::array::from_fn::<_, { %s }, _>(|_| %s)' % (m.group(1), expr), s)
+                    ns += 1; changed = True
+                    break
+        # step 2
+        changed = True
+        while changed:
+            changed = False
+            for (st, en, ind, vis, name, typ, expr) in items('static', s):
+                if re.search(r'\b' + PRIM + r'\b', typ) or re.search(PRIM + r'::new\s*\(', expr):
+                    s = s[:st] + '%sloom::lazy_static! { %sstatic ref %s: %s = %s; }' % (ind, vis, name, typ, expr) + s[en:]
+                    ns += 1; changed = True
+                    break
     if n: open(p,'w').write(s)
     subs[f]={"substituted":n,"statics_made_lazy":ns,"grouped_std_imports_not_substituted":grouped}
 json.dump({"files":subs,"total":sum(v["substituted"] for v in subs.values()),"src_sha256":h.hexdigest()},open(sys.argv[2],'w'),indent=1)
